@@ -3,5 +3,6 @@ pub mod bp;
 pub mod dsv;
 pub mod json;
 pub mod jsonmut;
+pub mod soup;
 pub mod text;
 pub mod yaml;
